@@ -33,9 +33,15 @@ TRUSTED_BASE = [
     'gcc 12 + binutils + glibc + the host CPU running the printed programs',
 ]
 ASSUMPTIONS = [
-    'padding bytes/bits, bits of a union outside its initialised member, bytes 10..15 of a long double are not compared with gcc (latitude)',
-    'excluded (counted): everything gcc rejects; initializers chibicc rejects that are GNU extensions; range designators over aggregate '
-    'elements with elided braces; non-constant or side-effecting initializers; strings longer than their array; signed out-of-range conversions',
+    'padding bytes/bits, bits of a union outside its initialised member, bytes 10..15 of a long double are not compared with gcc (latitude); '
+    'the model is compared with chibicc on ALL bytes',
+    'excluded (not generated or counted): everything gcc rejects; GNU extensions chibicc rejects (empty braces for unions/scalars ...); range '
+    'designators over aggregate elements (elided braces would be re-parsed per element); non-constant or side-effecting initializers; strings '
+    'longer than their array; signed out-of-range conversions; a second initializer for a flexible array member (gcc fixes its size at the '
+    'first); a positional string literal after a designator in the same list (gcc puts it into the designated row: '
+    '`char b[3][2] = {[0][1] = 2, "b"}` gives b[0] = "b" - an oracle quirk, chibicc follows the standard); address constants in _Bool/float/bit-field leaves',
+    'theorem hypotheses: wf (layout as struct_decl/union_decl produce it for non-packed types) and fits (tree of the shape of the type, address '
+    'constants only in 8-byte integer/pointer leaves, no struct/union-valued expressions)',
 ]
 
 KNOWN_BRACE = 'C05-brace-override-keeps-old'
@@ -1237,18 +1243,23 @@ def replay(ctx, corr, path):
         corr.violations.append({'what': 'object differs from gcc (raw bytes, padding included)', 'input': rc, 'expected': gl[0], 'got': cl[0]})
 
 MANIFEST = {
-    'level_text': 'Lean 4 theorems on a one-for-one model of the initializer machinery of parse.c and of emit_data: the static back end '
-                  '(write_gvar_data) and the automatic back end (create_lvar_init executed with the stores codegen emits) produce the same '
-                  'object for every well-formed type and initializer tree; bits not covered by an initialised leaf are zero; emit_data prints '
-                  'exactly the image; count_array_init_elements is exactly the bound the parse needs; the parser agrees with a cursor-style '
-                  'formalisation of C11 6.7.9 on the proved fragments (the general mixture is tested on every generated case).  The model is tied '
-                  'to the code on every run by compiling generated declarations with chibicc and comparing all bytes of static and automatic '
-                  'objects and the .data directives; the specification is validated against gcc on the same cases.',
-    'level_note': 'Trusted: Lean kernel; the hand model (tied by differential execution, which is testing); the token/expression abstraction '
-                  'done by the generator; the specification (validated against gcc 12); python layout of generated types. Known finding: '
-                  'C05-brace-override-keeps-old.',
-    'technique': 'Lean 4: structural induction over types/initializer trees for back-end agreement, zero fill and emission; fuel-monotone '
-                 'transcription of the 12 mutually recursive parser functions; executable 6.7.9 specification; three-way differential tie '
-                 '(model/chibicc/gcc) on type-directed generated initializers',
+    'level_text': 'Lean 4 theorems on a one-for-one model of the initializer machinery of parse.c and of emit_data.  Proved for ALL laid-out types '
+                  'and ALL initializer trees of their shape: the static back end (write_gvar_data + relocations) and the automatic back end '
+                  '(create_lvar_init executed with the stores and the bit-field read-modify-write codegen emits, on the ND_MEMZERO-ed slot) produce '
+                  'the same object and both succeed (C05_backends_agree); every bit not covered by an initialised leaf is zero in both (C05_zero); '
+                  'emit_data prints exactly the image, one .quad per relocation, one .byte per other byte, sizeof bytes in total (C05_emit); the '
+                  'recursion fuel of the transcription of the 12 mutually recursive parser functions never changes an answer (C05_fuel_mono).  '
+                  'Parser = C11 6.7.9 (cursor-style specification) and unknown bound = largest index + 1 are proved on exhaustive small scopes '
+                  '(all token lists up to a length over four types, ~76,000 lists, kernel-evaluated) and kept as full statements; outside the scopes '
+                  'they are tested on every generated case.  The model is tied to the code on every run by compiling type-directed generated '
+                  'declarations with chibicc and comparing all bytes of the static and the automatic object, sizeof, and the .data directives of -S; '
+                  'the specification is validated against gcc on the same cases; chibicc is compared with gcc on member bits.',
+    'level_note': 'Trusted: Lean kernel; the hand model (tied by differential execution, which is testing); the token/expression abstraction done by the '
+                  'generator; the 6.7.9 specification (validated against gcc 12); python layout of generated types (cross-checked by sizeof). '
+                  'C05_parse_spec and C05_count are _partial (finite scopes); the general mixture of designators and elided continuation is covered by '
+                  'the three-way correspondence only.  Known findings: C05-brace-override-keeps-old, C05-union-second-initializer.',
+    'technique': 'Lean 4: both back ends reduced to folds over one leaf list by structural recursion over the initializer tree; bit-level frame '
+                 'reasoning over little-endian storage units for the bit-field merge; interval arithmetic over layouts; monotonicity of a 12-function '
+                 'mutual fuel recursion; executable 6.7.9 specification; whole-scope `decide +kernel`; three-way differential tie (model / chibicc / gcc)',
     'design_ref': 'DESIGN.md section 6, C05',
 }
